@@ -667,8 +667,22 @@ impl<'a> Exec<'a> {
                     groups.push(SSKRGroupSpec::new(g[0].as_u64().unwrap() as usize, g[1].as_u64().unwrap() as usize).map_err(|e| format!("policy refused by the dependency: {}", e))?);
                 }
                 let spec = SSKRSpec::new(pol[0].as_u64().unwrap() as usize, groups).map_err(|e| format!("policy refused by the dependency: {}", e))?;
-                let shares: Vec<Vec<Envelope>> = e.sskr_split(&spec, k).map_err(|e| e.to_string())?;
+                let mut shares: Vec<Vec<Envelope>> = e.sskr_split(&spec, k).map_err(|e| e.to_string())?;
                 if op == "sskr_split_pick" {
+                    // The specification assumes that two splits get different identifiers (a 16-bit random
+                    // number in SSKR; join groups shares by it).  Redo a split whose identifier happens to be
+                    // the one of another split of this history, so that the assumption holds in every replay.
+                    let ident = |sh: &Vec<Vec<Envelope>>| -> Option<u16> {
+                        sh[0][0].objects_for_predicate(known_values::SSKR_SHARE).first()
+                            .and_then(|o| o.extract_subject::<bc_components::SSKRShare>().ok()).map(|s| s.identifier())
+                    };
+                    for _ in 0..16 {
+                        let id = ident(&shares);
+                        if id.is_none() || !self.ctx.splits.values().any(|other| ident(other) == id) {
+                            break;
+                        }
+                        shares = e.sskr_split(&spec, k).map_err(|e| e.to_string())?;
+                    }
                     let (g, m) = (a(3).as_u64().unwrap() as usize, a(4).as_u64().unwrap() as usize);
                     self.ctx.splits.insert(a(5).to_string(), shares.clone());
                     Outcome::Env(shares[g - 1][m - 1].clone())
